@@ -100,6 +100,7 @@ func runMutants(prop, repo string, ms []Mutant) []mutantResult {
 			defer func() { <-sem }()
 			m := ms[i]
 			cmd := exec.Command(self, "-property", prop, "-repo", repo, "-mutant", m.Name)
+			cmd.Env = append(os.Environ(), "CRS_NOREPLAY=1")
 			out, _ := cmd.CombinedOutput()
 			r := mutantResult{Name: m.Name, Expect: m.Expect, Why: m.Why}
 			code := -1
